@@ -390,7 +390,8 @@ def hosts_for(part, ch, head, k, all_hosts=True):
             hs.append('numerical')
             if all(v in ('T', 'F') for v in cmps):
                 hs.append('string')         # StringGrader.check_response: match -> the answer's ok/grade/msg, else zero
-        return hs if all_hosts else [hs[k % len(hs)]]
+        # thorough: two of the possible hosts per vector (rotating), quick: one
+        return [hs[k % len(hs)], hs[(k + 1) % len(hs)]] if all_hosts else [hs[k % len(hs)]]
     if part == 'single':
         return [['formula', 'matrix', 'numerical'][k % 3]]
     if part == 'interval':
@@ -414,7 +415,7 @@ def replay_states(states, extra):
     part = extra['part']
     classes = {}          # record text -> [count, example]
     drift = []
-    n_term = n_calls = n_pred = n_raised = 0
+    n_term = n_calls = n_pred = n_raised = n_drift = 0
     keys = set()
     k = 0
     for st in states:
@@ -428,8 +429,9 @@ def replay_states(states, extra):
             result, err, meta = run_vector(part, ch, 'matrix')
             n_calls += 1
             n_raised += 1
-            if (err is None or err.split(':')[0] not in ('MathArrayShapeError', 'InputTypeError', 'ArgumentShapeError')) \
-                    and len(drift) < 20:
+            wrong_exit = err is None or err.split(':')[0] not in ('MathArrayShapeError', 'InputTypeError', 'ArgumentShapeError')
+            n_drift += wrong_exit
+            if wrong_exit and len(drift) < 20:
                 drift.append({'part': part, 'host': 'matrix', 'ch': ch,
                               'what': 'model raises the shape/type error, code %s' % ('returned %s' % brief(result, 120) if err is None else 'raised ' + err)})
             keys.add((part, 'MatrixGrader', 'raised', ()))
@@ -441,10 +443,12 @@ def replay_states(states, extra):
             result, err, meta = run_vector(part, ch, host)
             n_calls += 1
             if err is not None:
+                n_drift += 1
                 if len(drift) < 20:
                     drift.append({'part': part, 'host': host, 'ch': ch, 'what': 'model returns, code raised ' + err})
                 continue
             diffs = compare_result(st['res'], result, frozenset(['LOGCMP']) if host == 'string' else frozenset())
+            n_drift += bool(diffs)
             if diffs and len(drift) < 20:
                 drift.append({'part': part, 'host': host, 'ch': ch, 'what': '; '.join(diffs[:3]),
                               'model_verdict': st['vd']})
@@ -461,7 +465,7 @@ def replay_states(states, extra):
                 if len(ch) < len(c[1]['ch']):       # keep the shortest vector as the representative
                     c[1] = {'part': part, 'host': host, 'ch': ch, 'result': brief(result), 'model_verdict': st['vd']}
             keys.add((part, meta['cls'], st['vd'], tuple(sorted((i['ok'], i['cls']) for i in rec['items']))))
-    return {'terminal': n_term, 'calls': n_calls, 'predicted_ill_formed': n_pred, 'raised': n_raised, 'classes': classes, 'drift': drift,
+    return {'terminal': n_term, 'calls': n_calls, 'predicted_ill_formed': n_pred, 'raised': n_raised, 'drifting': n_drift, 'classes': classes, 'drift': drift,
             'keys': sorted(keys)}
 
 
@@ -1101,7 +1105,7 @@ def run_replay(ctx, variant):
     """TLC exploration + replay of every terminal vector for one model variant ('' as coded, '_repaired').
     -> (classes merged over parts, drift list, statistics)"""
     classes, drift = {}, []
-    stats = {'terminal': 0, 'calls': 0, 'predicted_ill_formed': 0, 'raised': 0}
+    stats = {'terminal': 0, 'calls': 0, 'predicted_ill_formed': 0, 'raised': 0, 'drifting': 0}
     for part in PARTS:
         d = os.path.join(ctx.scratch, 'cases_%s%s' % (part, variant))
         r = ctx.tlc('graders/MC_ResultPipeline.tla', 'graders/MC_ResultPipeline_%s_%s%s.cfg' % (part, ctx.tier, variant),
@@ -1147,11 +1151,11 @@ def run(ctx):
     # ---- spec -> code
     classes, drift, stats = run_replay(ctx, '')
     variant = 'as_coded'
-    if drift and all(x.get('model_verdict') for x in drift):
-        # the code departs from the as-coded model exactly where that model returns an ill-formed value:
+    if any(x.get('model_verdict') for x in drift):
+        # the code departs from the as-coded model where that model returns an ill-formed value:
         # see whether it follows the repaired design instead
         classes2, drift2, stats2 = run_replay(ctx, '_repaired')
-        if not drift2:
+        if stats2['drifting'] < stats['drifting']:
             classes, drift, stats, variant = classes2, drift2, stats2, 'repaired'
     ctx.extra['model_variant_followed_by_code'] = variant
     if stats['raised'] == 0 or stats['terminal'] == stats['raised']:
